@@ -334,6 +334,76 @@ def size_targets():
     return [t1, t2]
 
 
+def native_edge_part(run, tier):
+    """Bounded, native (float64): the agreement / adjointness clauses where the symbolic geometries cannot go --
+      (a) extents next to the limits of the narrow integer types (253..257, 65533..65537 along one axis) with every padding 0..3: index arithmetic on the PADDED image
+          must not wrap;
+      (b) 'any x and y' and any pad value include the non-finite ones: pad_value in {-inf (what max-pooling passes), +inf, nan} and images with inf / -inf / nan pixels
+          on the border and inside -- the routines only move values (im2col) or add them (col2im), so the variants agree element for element (nan == nan)."""
+    from synapgrad import conv_tools as ct
+    rng = np.random.RandomState(3)
+
+    def same(a, b):
+        return a.shape == b.shape and bool(np.array_equal(a, b, equal_nan=True))
+
+    def facts_for(x, k, d, s_, p, pv):
+        a, b, c = (f_(x, k, d, s_, p, pv, as_unfold=True) for f_ in (ct.im2col, ct.im2col_v2, ct.im2col_fast))
+        a2, b2, c2 = (f_(x, k, d, s_, p, pv, as_unfold=False) for f_ in (ct.im2col, ct.im2col_v2, ct.im2col_fast))
+        f = {"im2col variants agree (unfold layout)": same(a, b) and same(a, c), "im2col variants agree (matrix layout)": same(a2, b2) and same(a2, c2)}
+        # independent reference for one layout: explicit padding, then a plain gather
+        kh, kw = k
+        xp = np.pad(x, ((0, 0), (0, 0), (p[0], p[0]), (p[1], p[1])), constant_values=pv)
+        lh = (xp.shape[2] - d[0] * (kh - 1) - 1) // s_[0] + 1
+        lw = (xp.shape[3] - d[1] * (kw - 1) - 1) // s_[1] + 1
+        ref = np.empty((x.shape[0], x.shape[1] * kh * kw, lh * lw), dtype=x.dtype)
+        r_ = 0
+        for ch in range(x.shape[1]):
+            for i in range(kh):
+                for j in range(kw):
+                    ref[:, r_, :] = xp[:, ch, i * d[0]: i * d[0] + s_[0] * (lh - 1) + 1: s_[0], j * d[1]: j * d[1] + s_[1] * (lw - 1) + 1: s_[1]].reshape(x.shape[0], -1)
+                    r_ += 1
+        f["im2col equals explicit padding followed by a gather"] = same(a, ref)
+        if np.all(np.isfinite(x)):
+            y = rng.randn(*a.shape)
+            i1, i2, i3 = (f_(y, x.shape, k, d, s_, p) for f_ in (ct.col2im, ct.col2im_v2, ct.col2im_fast))
+            f["col2im variants agree"] = bool(np.allclose(i1, i2) and np.allclose(i1, i3))
+            a0 = ct.im2col(x, k, d, s_, p, 0, as_unfold=True)
+            f["adjoint"] = bool(np.isclose((a0 * y).sum(), (x * i1).sum()))
+        return f
+
+    jobs = []
+    big = (253, 254, 255, 256, 257) + ((65533, 65535, 65536, 65537) if tier == "thorough" else (65535,))
+    for L in big:
+        for pad in (0, 1, 2, 3):
+            for axis in (2, 3):
+                if L > 1000 and (pad not in (0, 2) or axis == 2):
+                    continue
+                shape = [1, 1, 3, 3]
+                shape[axis] = L
+                k, p = ((3, 2), (pad, 1)) if axis == 2 else ((2, 3), (1, pad))
+                jobs.append(("extent %d along axis %d, padding %s" % (L, axis, p), rng.randn(*shape), k, (1, 1), (1, 1) if L < 1000 else ((1, 7) if axis == 3 else (7, 1)), p, 0.5))
+    for pv in (-np.inf, np.inf, np.nan, 0.5):
+        for special in (None, np.inf, -np.inf, np.nan):
+            for k, d, s_, p in (((2, 2), (1, 1), (1, 1), (1, 1)), ((3, 2), (1, 2), (2, 1), (2, 1)), ((2, 3), (1, 1), (2, 2), (0, 2)), ((1, 1), (1, 1), (1, 1), (1, 0))):
+                x = rng.randn(2, 2, 5, 4)
+                if special is not None:
+                    x[0, 0, 0, 0] = x[1, 1, -1, -1] = x[0, 1, 2, 0] = x[1, 0, 2, 2] = special       # corners, an edge, the interior
+                if pv == 0.5 and special is None:
+                    continue
+                jobs.append(("pad_value %s, image with %s pixels, kernel %s dilation %s stride %s padding %s" % (pv, special, k, d, s_, p), x, k, d, s_, p, pv))
+    for label, x, k, d, s_, p, pv in jobs:
+        run.rt(("native-edge", label))
+        try:
+            with np.errstate(all="ignore"):
+                f = facts_for(x, k, d, s_, p, pv)
+        except Exception as e:
+            f = {"completes (%s: %s)" % (type(e).__name__, str(e)[:120]): False}
+        bad = [k_ for k_, v_ in f.items() if not v_]
+        if bad:
+            run.violation(CT + "variants_agree_for_any_x_and_y", "natively, %s: %s" % (label, "; ".join(bad)), key={"case": label.split(",")[0], "facts": bad},
+                          replay={"case": label, "shape": list(x.shape), "kernel": k, "dilation": d, "stride": s_, "padding": p, "pad_value": repr(pv), "failing": bad})
+
+
 def main(tier="quick", seed=0, procs=None, only=None):
     from ..pyvc.harness import TargetCase
     run = Run("C16", tier, seed, "proof")
@@ -343,4 +413,8 @@ def main(tier="quick", seed=0, procs=None, only=None):
     run.rule = "one case = one 2-d geometry; every element of every compared array is one equality obligation (x, y, pad value symbolic)"
     cases = geometry_cases(tier) + [TargetCase(t) for t in size_targets()]
     run_catalogue(run, cases, seed=seed, procs=procs)
+    try:
+        native_edge_part(run, tier)
+    except Exception as e:
+        run.error("native edge part failed", e)
     return run.finish()
